@@ -127,4 +127,7 @@ def o08_4(tier):
                         got = ctx.callm(fr, "get_big_edge_by_cells", c2, c1)
                         ctx.ensure(ctx.get(got, "big_edge_id") == i, f"lookup by cells ({c2},{c1}) returns interface {i}")
         return h
-    return [(f"{s},k={k}", mk(s, k)) for s in SHAPES for k in ((0, 2) if tier == "quick" else (0, 1, 2, 5, 15))]
+    from .shapes import BASE_SHAPES
+    out = [(f"{s},k={k}", mk(s, k)) for s in BASE_SHAPES for k in ((0, 2) if tier == "quick" else (0, 1, 2, 5, 15))]
+    out += [(f"{s},k=1", mk(s, 1)) for s in SHAPES if "~v" in s and (tier != "quick" or s.endswith(("~v1", "~v2")))]
+    return out
